@@ -400,6 +400,9 @@ for nm in ("ns_resp_guard_00", "ns_resp_guard_10", "ns_resp_guard_01", "ns_resp_
             "(send key, sequence) and the sequence advances; a denied reply only when no slot is free, sealed with the server-wide sequence which then advances; otherwise the connection table is "
             "unchanged; a valid response connects when a slot is free",
       bound=_NSB % nm[-2:], **NSC)
+L("ns_set_max_clients", props=["C18", "C10"], timeout=900, mem_gb=14, functions="NetcodeServer::set_max_clients",
+  claim="after changing the client limit there are at least as many slots as the limit allows (so a handshake below the limit is not denied for lack of a slot) and existing sessions are untouched",
+  bound="server constructed with 1 slot (occupied), any requested limit (NETCODE_MAX_CLIENTS shrunk to 2)", **NSC)
 L("ns_witness", props=["C04", "C05", "C07", "C10", "C13", "C17", "C18", "C19"], expect="fail", functions="-", claim="vacuity witness (contract variant)", **NSC)
 
 
